@@ -64,10 +64,13 @@ NoRun == [op |-> "none", tier |-> "none"]
 Stats0 == [records |-> 0, patches |-> 0, refusals |-> 0, builder_panics |-> 0, applies |-> 0, undecided |-> 0,
            with_diff |-> 0, with_seek |-> 0, fmt_only |-> 0, impl_only |-> 0,
            model_checked |-> 0, model_agrees |-> 0, arb |-> 0, arb_ok |-> 0, arb_fail |-> 0, arb_panics |-> 0,
-           arb_agree |-> 0, long_records |-> 0]
+           arb_agree |-> 0, long_records |-> 0, by_simple |-> 0, by_chunked |-> 0, by_optimized |-> 0]
 
-RECURSIVE SumBy(_, _)
-SumBy(outs, k) == IF k > Len(outs) THEN 0 ELSE Len(outs[k].by) + SumBy(outs, Now(k + 1))
+SumBy(outs) == FoldLeft(LAMBDA n, o : n + Len(o.by), 0, outs)
+CountB(e, name) == FoldLeft(LAMBDA n, c : n + (IF c[1] = name THEN 1 ELSE 0), 0, e.cfgs)
+Produced(st, e) == [st EXCEPT !.records = @ + 1, !.patches = @ + Len(e.cfgs), !.applies = @ + SumBy(e.outs),
+                              !.by_simple = @ + CountB(e, "simple"), !.by_chunked = @ + CountB(e, "chunked"),
+                              !.by_optimized = @ + CountB(e, "optimized")]
 
 \* ---- the patch as an independent reader sees it ---------------------------
 WellFormed(e) ==
@@ -79,9 +82,8 @@ WellFormed(e) ==
 AllChunked(e) == \A i \in 1..Len(e.cfgs) : e.cfgs[i][1] = "chunked"
 
 \* a non-zero seek that a later diff entry depends on
-RECURSIVE FirstSeek(_, _)
-FirstSeek(ctrl, k) == IF k > Len(ctrl) THEN 0 ELSE IF ctrl[k][3] # 0 THEN k ELSE FirstSeek(ctrl, Now(k + 1))
-SeekMatters(ctrl) == LET f == FirstSeek(ctrl, 1) IN f > 0 /\ \E j \in (f + 1)..Len(ctrl) : ctrl[j][1] > 0
+SeekMatters(ctrl) == LET f == SelectInSeq(ctrl, LAMBDA c : c[3] # 0)         \* first non-zero seek, 0 = none
+                     IN f > 0 /\ \E j \in (f + 1)..Len(ctrl) : ctrl[j][1] > 0
 UsesDiff(ctrl)    == \E i \in 1..Len(ctrl) : ctrl[i][1] > 0
 
 \* informational: the code-shaped model of the builder writes the same blocks
@@ -103,7 +105,7 @@ JudgeShort(e) ==
                            !.refusals = @ + (IF Has(e.res, "panic") THEN 0 ELSE n),
                            !.builder_panics = @ + (IF Has(e.res, "panic") THEN n ELSE 0)]]
   ELSE
-  LET st1 == [stats EXCEPT !.records = @ + 1, !.patches = @ + n, !.applies = @ + SumBy(e.outs, 1)] IN
+  LET st1 == Produced(stats, e) IN
   IF ~(WellFormed(e) /\ CtrlShapeOK(e.ctrl)) THEN [good |-> FALSE, dev |-> "", undec |-> FALSE, st |-> st1]
   ELSE IF ~CtrlSmall(e.ctrl) THEN [good |-> TRUE, dev |-> "", undec |-> TRUE, st |-> st1]
   ELSE
@@ -122,7 +124,7 @@ JudgeShort(e) ==
               /\ A.ok
               /\ LET Z == Apply(old, Patch(ZeroSeeks(C), e.diff, e.extra, P.size)) IN Z.ok /\ Z.out = new
               /\ \A i \in 1..Len(e.outs) : e.outs[i].ok /\ e.outs[i].b = A.out
-      modelled == e.cfgs[1][1] \in {"simple", "chunked"}
+      modelled == e.cfgs[1][1] \in {"simple", "chunked"} /\ Len(old) <= 64 /\ Len(new) <= 64
       M    == ModelOf(e, old, new)
       agrees == modelled /\ M.ctrl = C /\ M.diff = e.diff /\ M.extra = e.extra
   IN [good |-> good \/ dA, dev |-> IF dA THEN "F16a" ELSE "", undec |-> FALSE,
@@ -142,8 +144,7 @@ JudgeLong(e) ==
                            !.refusals = @ + (IF Has(e.res, "panic") THEN 0 ELSE n),
                            !.builder_panics = @ + (IF Has(e.res, "panic") THEN n ELSE 0)]]
   ELSE
-  LET st1 == [stats EXCEPT !.records = @ + 1, !.long_records = @ + 1, !.patches = @ + n,
-                           !.applies = @ + SumBy(e.outs, 1)] IN
+  LET st1 == [Produced(stats, e) EXCEPT !.long_records = @ + 1] IN
   IF ~(WellFormed(e) /\ e.ctrl_rem = 0) THEN [good |-> FALSE, dev |-> "", undec |-> FALSE, st |-> st1]
   ELSE IF e.ctrl_big THEN [good |-> TRUE, dev |-> "", undec |-> TRUE, st |-> st1]
   ELSE
@@ -171,7 +172,7 @@ JudgeArb(e) ==
       pan   == \E i \in 1..Len(e.outs) : Has(e.outs[i], "panic")
       agree == \A i \in 1..Len(e.outs) : IF A.ok THEN e.outs[i].ok /\ e.outs[i].b = A.out ELSE ~e.outs[i].ok
   IN [good |-> exact, dev |-> "", undec |-> FALSE,
-      st |-> [stats EXCEPT !.arb = @ + 1, !.applies = @ + SumBy(e.outs, 1),
+      st |-> [stats EXCEPT !.arb = @ + 1, !.applies = @ + SumBy(e.outs),
                            !.arb_ok = @ + (IF anyok THEN 1 ELSE 0), !.arb_fail = @ + (IF anyok THEN 0 ELSE 1),
                            !.arb_panics = @ + (IF pan THEN 1 ELSE 0), !.arb_agree = @ + (IF agree THEN 1 ELSE 0)]]
 
